@@ -570,13 +570,13 @@ def main(tier, seed):
               ('freeform-markers-after-delayed', F.marker_programs(4, 3, base='B'), list(range(len(F.PATTERNS)))),
               ('freeform-operators', F.operator_programs(4, 2) + F.focused_programs(6, 3), list(range(len(F.PATTERNS))))]
     def reopened(descs):
-        # 201 / 202 / 207 / 208 do not nest: YYY = 0 cancels the operator whoever opened it.  A bracket of one of them inside a
+        # 201 / 202 / 207 / 208 / 203 do not nest: YYY = 0 cancels the operator whoever opened it.  A bracket of one of them inside a
         # bracket of the same operator is therefore closed by the INNER cancel - when the inner bracket sits in a loop, an
         # operator opened outside the loop is closed inside it, which is what the property's precondition excludes
         open_ = set()
         for d in descs:
             op, y = d // 1000, d % 1000
-            if op in (201, 202, 207, 208):
+            if op in (201, 202, 207, 208) or (op == 203 and y != 255):       # 203255 only ends the definition list
                 if y:
                     if op in open_:
                         return True
